@@ -65,6 +65,12 @@ class Concretizer:
         key = str(v)
         if key in self.name_map:
             return self.name_map[key]
+        if lit is None:
+            # the model may identify the name with one of the string literals of the code
+            for s_, _i in list(sym._literal_ids.items()):
+                if str(self.m.eval(sym.literal_name(s_), model_completion=True)) == key:
+                    lit = s_
+                    break
         if lit is not None:
             s = lit
         else:
